@@ -35,6 +35,7 @@ class EngineError(Exception):
 
 _CTX = None
 SOLVER_TIMEOUT_MS = 60000
+COVER_TIMEOUT_MS = 8000
 MAX_TRIGGER_DEPTH = 2  # facts produced by triggers are themselves scanned for new applications this many levels deep
 
 
@@ -261,7 +262,11 @@ class Ctx:
     def cover(self, name, cond=True):
         """Reachability / non-vacuity: path condition (and cond) must be satisfiable."""
         cond = as_z3_bool(cond)
-        r, m = self._check(cond)
+        self.solver.set("timeout", COVER_TIMEOUT_MS)
+        try:
+            r, m = self._check(cond)
+        finally:
+            self.solver.set("timeout", SOLVER_TIMEOUT_MS)
         st = "proved" if r == z3.sat else ("undecided" if r == z3.unknown else "refuted")
         ob = Obligation(name, st, None, "cover: must be satisfiable", 0.0, path=self.path_id(), kind="cover")
         self.obligations.append(ob)
